@@ -77,7 +77,8 @@ class Flow:
         self.locals = body['locals']
         self.argc = body['argc']
         self.defs = {}        # local -> list of ('assign', b, i, rvalue) | ('call', b, term) | ('yield', b)
-        self.partial = {}     # local -> list of (b, i, place, rvalue)  (field / deref stores)
+        self.partial = {}     # local -> list of (b, i, place, rvalue)  (field stores into the local itself)
+        self.through = {}     # local -> stores through the reference held by the local (`(*l).. = ..`)
         self.mutref = {}      # local -> list of (b,i) where `&mut local...` is taken
         for bi, blk in enumerate(self.blocks):
             if blk.get('cl'):
@@ -88,8 +89,10 @@ class Flow:
                     continue
                 if 'p' not in d:
                     self.defs.setdefault(d['l'], []).append(('assign', bi, si, s['r']))
-                else:
+                elif d['p'][0] != '*':
                     self.partial.setdefault(d['l'], []).append((bi, si, d, s['r']))
+                else:
+                    self.through.setdefault(d['l'], []).append((bi, si, d, s['r']))
                 r = s['r']
                 if r['k'] == 'ref' and r['m']:
                     self.mutref.setdefault(r['p']['l'], []).append((bi, si))
@@ -194,7 +197,7 @@ class Flow:
         d = ds[0]
         if d[0] == 'assign':
             r = self.rvalue(d[3], depth + 1)
-            if l in self.mutref and self.lname(l) is not None and r[0] not in ('call',):
+            if l in self.mutref and self.lname(l) not in (None, '__awaitee') and r[0] not in ('call',):
                 # named variable later mutated through a reference: keep it as a join point
                 r = ('local', l, self.lname(l))
         elif d[0] == 'call':
